@@ -9,6 +9,12 @@ from werkzeug.wrappers import Response
 
 from .tabular import TabularRender
 
+try:
+    unicode
+except NameError:
+    # py3
+    unicode = str
+
 class ClasticJSONEncoder(JSONEncoder):
     def __init__(self, **kw):
         self.dev_mode = kw.pop('dev_mode', False)
